@@ -33,6 +33,10 @@ def cookie_sets(names):
     return [((a, "1"),), ((a, "2"),), ((b, "1"),), ((a, "1"), (b, "2")), ((a, "2"), (b, "1"))]
 
 
+# values that are legal cookie values and contain the characters a header-unfolding step would trip over (comma followed by name=)
+COMMA_SETS = [(("prefs", "lang=en,tz=utc"),), (("tok", "YWJjZA==,ZGVmZw=="),), (("track", "src=mail,sid=evil"), ("sid", "good")), (("a", "1,2,3"),), (("a", "x,b=9"), ("b", "1"))]
+
+
 class RefJar:
     def __init__(self):
         self.jar = {}
@@ -82,6 +86,11 @@ def run(res, tier, seed, shard, nshards):
             histories.append(((d, bs),))
             histories.append(((d, (("a", "old"),)), (d, bs)))
 
+    for cs in COMMA_SETS:
+        for d in ("x.t", ".x.t"):
+            histories.append(((d, cs),))
+            histories.append(((d, (("sid", "good"),)), (d, cs)))
+
     def scen():
         for i, hst in enumerate(histories):
             if i % nshards != shard:
@@ -122,7 +131,11 @@ def history_case(res, W, rng, hst):
         res.count("histories_with_shared_header_list")
     for hi, (domain, cs) in enumerate(hst):
         two_lines = len(cs) == 2 and rng.random() < 0.5
-        dom = f"; Domain={domain}" if domain is not None else ""
+        # the attribute in the spellings RFC 6265 5.2 allows (name matched caselessly, white space around "=" ignored)
+        spelling = rng.choice(["; Domain={}", "; Domain={}", "; Domain={}", "; domain={}", "; DOMAIN={}", "; Domain = {}", ";Domain={}", "; Domain\t=\t{}", "; Domain= {}"])
+        dom = spelling.format(domain) if domain is not None else ""
+        if domain is not None:
+            res.count("domain_attribute_spellings:" + spelling.strip("; {}").replace("\t", "TAB").replace(" ", "SP"))
         if two_lines:
             lines = [f"Set-Cookie: {n}={v}{dom}" for n, v in cs]
         else:
